@@ -234,6 +234,28 @@ example : dotFree (s "Query") ∧ dotFree (s "Mutation") ∧
       [⟨.query, s "Query", s "dup"⟩] := by
   refine ⟨?_, ?_, by decide⟩ <;> (unfold dotFree; decide)
 
+/-- Under hypothesis-graphql's targeting contract, whatever document the requested strategy draws targets exactly the
+    operation the strategy was built for (one operation of its kind, selecting only its field). -/
+theorem document_targets_under_contract {β : Type} (gen : Root → List Name → DocSummary → Prop)
+    (hc : GenContract gen) (op : Op) (cfg : GenConfig) (extra custom : List (Name × β)) (d : DocSummary)
+    (h : gen (strategyCall op cfg extra custom).factory (strategyCall op cfg extra custom).fields d) :
+    targets op d = true := by
+  obtain ⟨sels, hd, hne, hall⟩ := hc _ _ d h
+  subst hd
+  have hall' : ∀ x ∈ sels, x = some op.field := by
+    intro x hx
+    obtain ⟨f, hf, hxf⟩ := hall x hx
+    simp only [strategyCall, List.mem_singleton] at hf
+    rw [hxf, hf]
+  simp only [targets, strategyCall, beq_self_eq_true, Bool.true_and, Bool.and_eq_true, Bool.not_eq_true',
+    List.isEmpty_eq_false_iff, List.all_eq_true, beq_iff_eq]
+  exact ⟨hne, hall'⟩
+
+/-- non-vacuity: a generator meeting the contract -/
+example : GenContract (fun r fs d => ∃ f ∈ fs, d = [(some r, [some f, some f])]) := by
+  intro r fs d ⟨f, hf, hd⟩
+  exact ⟨[some f, some f], hd, by simp, by intro x hx; exact ⟨f, hf, by simpa using hx⟩⟩
+
 /-- generation settings reach the factory unchanged -/
 theorem settings_passed {β : Type} (op : Op) (cfg : GenConfig) (extra custom : List (Name × β)) :
     (strategyCall op cfg extra custom).allowX00 = cfg.allowX00 ∧
